@@ -17,6 +17,7 @@ RULE = ('forward: all candidates of all lines of the C02 generator (Intel syntax
         'string canonical and decoded).')
 RULE += ' Round 8: one candidate in four is also decoded from a stream positioned on it inside a larger buffer with nothing after it.'
 RULE += ' Round 9: SIB bytes without a base register for every scale x three index registers x displacements that would also fit a byte.'
+RULE += ' Round 9: a history shard re-assembles, in one process, the renderings of instructions whose operands the front end rewrites in place (16-bit pushes, lea, prefetch, immediate shuffles) and then takes canonical strings that spell the same operand texts through the converse direction.'
 ASSUMPTIONS = ['GNU as/objdump 2.40 only *select* the canonical byte strings of the backward direction; the comparison itself is miasmX against miasmX']
 
 
@@ -206,7 +207,7 @@ def shards(tier, seed):
     cl = x86space.cells()
     out += [('back', i, 8) for i in range(0, len(cl), 8)]
     out += [('backp', i, 64) for i in range(0, len(cl), 64)]
-    out += [('backgrid', 0, 0)]
+    out += [('backgrid', 0, 0), ('history', 0, 0)]
     return out
 
 
@@ -217,7 +218,21 @@ def run_shard(shard, tier, seed):
         return sh
     cl = x86space.cells()[shard[1]:shard[1] + shard[2]]
     items = []
-    if shard[0] == 'backgrid':
+    if shard[0] == 'history':
+        # the round trip of a canonical string may not depend on which other lines the process assembled before: first the
+        # instructions whose operands the front end rewrites in place (16-bit pushes, lea, prefetch, shuffles with an immediate) are
+        # decoded, rendered and re-assembled, then other instructions that spell the very same operand texts
+        from miasmx.arch.ia32_arch import x86mnemo
+        for h in ('666a04', '66680010', '666a10', '66ff30', '66ff7304', '8d03', '8d4304', '8d0424', '0f1800', '0f184304', '0fc6c105', '660fc5c103', '660fc4c803', '66ff3504000000', '8d0504000000'):
+            try:
+                asm_safe(str(x86mnemo.dis(bytes.fromhex(h))))
+            except Exception:
+                pass
+        for h in ('66a104000000', 'df0504000000', '66a110000000', 'df0510000000', '66a100100000', '668b00', '668b4304', 'df00', 'df4304', '8b03', '8b4304', '8b0424', 'ff30', '0fb700', '0fb74304',
+                  '66c7000500', '66830004', '668b0504000000', 'a104000000', 'db0504000000', '8b00', 'c60005', '0fc6c103', 'dd00', 'd900'):
+            b_ = bytes.fromhex(h)
+            items.append((b_ + b'\x90' * 6, ((9, b_[0]), '', 0, 0, None, 'history')))
+    elif shard[0] == 'backgrid':
         items = list(x86space.sib_grid(tier)) + list(x86space.disp_grid(tier))
     elif shard[0] == 'back':
         for cell in cl:
